@@ -1,5 +1,5 @@
 From Coq Require Import List NArith Bool.
-From V.Ts Require Import Model Proofs Rearm Timing Extra Exact Multi MultiProofs.
+From V.Ts Require Import Model Proofs Rearm Timing Extra Exact Names Multi MultiProofs.
 Import ListNotations.
 Open Scope N_scope.
 From V.C09 Require Import Properties.
@@ -118,3 +118,17 @@ Check (C09_multi_next_none_iff :
   (snd (snd (mstep m dt (MNext c))) = NEnd <->
    qfind c (push_all 0 (m_q m) (fst (snd (mstep m dt (MNext c))))) = [] /\
    mstrong (m_svcs (fst (mstep m dt (MNext c)))) c = 0)).
+Check (C09_name_table_main :
+  forall tbl pr,
+  NoDup (all_names tbl) -> In pr tbl ->
+  classify tbl (p_main pr) = Some (p_ka pr) /\ resolve tbl (p_main pr) = (p_main pr, None)).
+Check (C09_name_table_fallback :
+  forall tbl pr f,
+  NoDup (all_names tbl) -> In pr tbl -> In f (p_fbs pr) ->
+  classify tbl f = Some (p_ka pr) /\ resolve tbl f = (p_main pr, Some f)).
+Check (C09_name_table_nothing_else :
+  forall tbl nm, NoDup (map p_main tbl) -> ~ In nm (all_names tbl) -> classify tbl nm = None).
+Check (C09_name_table_own_name_lookup_refuted :
+  exists tbl pr f,
+  NoDup (all_names tbl) /\ In pr tbl /\ In f (p_fbs pr) /\
+  classify tbl f = Some true /\ classify_by_own_name tbl f = Some false).
